@@ -374,7 +374,7 @@ def promoted_rvalue(crate, body, desc):
     return None
 
 
-def leaves(body, op, depth=40):
+def leaves(body, op, depth=40, adt=False):
     """Backward data slice of an operand down to its leaf sources.  Returns a set of strings:
          'field:<a.b.c>'   read of a field path rooted at an argument / captured place
          'lfield:<a.b>'    field path read through a local (e.g. `(*guard).x`, a captured `self` in a coroutine)
@@ -386,8 +386,12 @@ def leaves(body, op, depth=40):
     out = set()
     seen = set()
 
+    def nm(e):
+        # with adt=True every segment carries the type it is a field of: `SolverState#decision_tracker`
+        return ("%s#%s" % (str(e.get("of", "?")).split("::")[-1], e["n"])) if adt else e["n"]
+
     def place_leaf(p):
-        names = [e.get("n") for e in p.get("p", []) if isinstance(e, dict) and "f" in e and e.get("n")]
+        names = [nm(e) for e in p.get("p", []) if isinstance(e, dict) and "f" in e and e.get("n") and not e.get("var")]
         return names
 
     def walk(o, d):
@@ -414,7 +418,7 @@ def leaves(body, op, depth=40):
         desc = body.origin({"k": "copy", "p": p}, depth=1) if False else None
         if 1 <= l <= body.d["arg_count"]:
             dd = body.origin({"k": "copy", "p": p})
-            names = [e.get("n") for e in dd.get("proj", []) if isinstance(e, dict) and "f" in e and e.get("n")]
+            names = [nm(e) for e in dd.get("proj", []) if isinstance(e, dict) and "f" in e and e.get("n") and not e.get("var")]
             out.add("field:" + ".".join(names) if names else "arg:%d" % l)
             return
         names = place_leaf(p)
